@@ -325,6 +325,28 @@ func c19Scenario1(c *fw.Ctx, sc c19Scenario, onlyKill int) {
 			c.Report(fmt.Sprintf("%s/%s/%s/old=%s,new=%s/killed-before:%s#%d", sc.Name, role, what, c19ValClass(pre[key]), c19ValClass(post[key]), calls[i].name, k),
 				fmt.Sprintf("killed before %q: key %q reads %s after restart — neither the previous (%s) nor the new value (%s)", calls[i].line, key, c19ValClass(g), c19ValClass(pre[key]), c19ValClass(post[key])), cas)
 		}
+		// life goes on after the crash: the restarted process writes every key again, with a SHORTER value; whatever the
+		// killed write left behind must not leak into it
+		if st2, err := util.NewFileStorage(dir); err == nil {
+			for _, key := range keys {
+				if key == "<entities>" || strings.HasPrefix(key, ".") {
+					continue
+				}
+				short := []byte("s")
+				if strings.HasSuffix(key, ".entity") {
+					short = []byte(`{"Name":"n","PublicKey":"","PrivateKey":""}`)
+				}
+				if err := st2.Set(key, short); err != nil {
+					c.Report(fmt.Sprintf("%s/rewrite-after-crash-fails/killed-before:%s#%d", sc.Name, calls[i].name, k), "after the crash a new Set fails: "+err.Error(), cas)
+					break
+				}
+				if b, err := st2.Get(key); err != nil || !bytes.Equal(b, short) {
+					c.Report(fmt.Sprintf("%s/rewrite-after-crash-differs/killed-before:%s#%d", sc.Name, calls[i].name, k),
+						fmt.Sprintf("killed before %q, then key %q was set to a %d-byte value after restart: Get returns %d bytes %q", calls[i].line, key, len(short), len(b), trunc(b, 30)), cas)
+					break
+				}
+			}
+		}
 		if entErr != "" {
 			c.Report(fmt.Sprintf("%s/entities-unreadable/killed-before:%s#%d", sc.Name, calls[i].name, k),
 				fmt.Sprintf("killed before %q: Entities() fails after restart: %s", calls[i].line, entErr), cas)
@@ -375,7 +397,7 @@ func init() {
 	fw.Register(&fw.Check{
 		ID:    "C19",
 		Level: "fault_enumeration",
-		Rule:  "for each scenario (Set for every (old,new) ∈ {absent,3,10,5000 bytes} × {3,10,5000 bytes,empty}; Delete; SaveEntity over a longer / shorter / no entity; a whole hc.NewIPTransport start on a fresh, a paired-unchanged and a paired-structurally-changed store) every file-system syscall the operation issues (listed by a reference strace run) is a kill point: the real child process is SIGKILLed at the entry of exactly that call, the directory is re-opened and every key is read through hc's API: each must equal its previous or its new value in full and Entities() must succeed. distinct_nontrivial = distinct (scenario, kill point) pairs reached and verified to follow the reference trace",
+		Rule:  "for each scenario (Set for every (old,new) ∈ {absent,3,10,5000 bytes} × {3,10,5000 bytes,empty}; Delete; SaveEntity over a longer / shorter / no entity; a whole hc.NewIPTransport start on a fresh, a paired-unchanged and a paired-structurally-changed store) every file-system syscall the operation issues (listed by a reference strace run) is a kill point: the real child process is SIGKILLed at the entry of exactly that call, the directory is re-opened and every key is read through hc's API: each must equal its previous or its new value in full and Entities() must succeed and list the previous or the new set; then every key is written again with a shorter value and read back (nothing a killed write left behind may leak into later writes). distinct_nontrivial = distinct (scenario, kill point) pairs reached and verified to follow the reference trace",
 		Run:   c19Run,
 		Replay: func(c *fw.Ctx, raw json.RawMessage) {
 			var cas c19Case
